@@ -352,6 +352,22 @@ theorem post_triggerNoCache {st : St} (hI : Inv st) {e : Nat} (he : e < st.frame
   refine post_bump hI he ?_ (fun s _ h1 h2 => ⟨h1, h2⟩)
   intro f; exact ⟨rfl, rfl, rfl, rfl⟩
 
+theorem Inv.clearCache {st : St} (hI : Inv st) : Inv { st with cache := [] } :=
+  ⟨hI.cur, hI.root, hI.frames, by intro c hc; simp at hc⟩
+
+theorem post_functionChanged {st : St} (hI : Inv st) {w : Nat} (hw : w < st.frames.size) (old : Option Obj) :
+    Post (functionChanged w old) st (fun _ s => s.frames.size = st.frames.size ∧ s.cur = st.cur) := by
+  unfold functionChanged
+  split
+  · split
+    · refine Post.bind (Q := fun _ s => s.frames.size = st.frames.size ∧ s.cur = st.cur)
+        (post_bump hI hw ?_ (fun s _ h1 h2 => ⟨h1, h2⟩)) ?_
+      · intro f; exact ⟨rfl, rfl, rfl, rfl⟩
+      rintro _ s hIs _ ⟨h1, h2⟩
+      exact Post.modify hIs.clearCache (Nat.le_refl _) ⟨h1, h2⟩
+    · exact Post.pure hI ⟨rfl, rfl⟩
+  · exact Post.pure hI ⟨rfl, rfl⟩
+
 theorem post_makeRef_go {st : St} (hI : Inv st) {orig : Nat} {forig : Frame}
     (ho : st.frames[orig]? = some forig) (name : String) :
     ∀ (fuel e : Nat) (fe : Frame), st.frames[e]? = some fe → e ≤ orig → fe.depth ≤ forig.depth →
@@ -555,32 +571,31 @@ theorem post_envCreate {st : St} (hI : Inv st) {e : Nat} (he : e < st.frames.siz
   · intro _ s' hIs' hle _
     exact Post.pure hIs' (okObj_mono hle _ hv)
 
+theorem post_envStoreAt {st : St} (hI : Inv st) {w e : Nat} (hw : w < st.frames.size) (he : e < st.frames.size)
+    (name : String) {v : Obj} (hv : okObj st.frames.size v = true) (hnr : notRef v = true) :
+    Post (envStoreAt w e name v) st OkO := by
+  obtain ⟨f, hf⟩ := frame_exists he
+  unfold envStoreAt
+  refine Post.bind_read (runM_getFrame hf) ?_
+  refine Post.bind (post_functionChanged hI hw _) ?_
+  rintro _ s hIs hle ⟨hsz, _⟩
+  have hv' : okObj s.frames.size v = true := okObj_mono hle _ hv
+  refine Post.bind (Q := fun _ _ => True) ?_ ?_
+  · refine post_store (name := name) hIs (by omega) hv' hnr ?_
+    intro f; exact ⟨rfl, rfl, rfl, rfl⟩
+  · intro _ s' hIs' hle' _
+    exact Post.pure hIs' (okObj_mono hle' _ hv')
+
 theorem post_envUpdate {st : St} (hI : Inv st) {e : Nat} (he : e < st.frames.size) (name : String) {found val : Obj}
     (hfound : okObj st.frames.size found = true)
     (hval : okObj st.frames.size val = true) : Post (envUpdate e name found val) st OkO := by
   unfold envUpdate
-  dsimp only
-  -- the store part
   have hrest : ∀ v, okObj st.frames.size v = true → notRef v = true →
-      Post (match (match found with | Obj.ref re rn => (re, rn) | _ => (e, name)) with
-        | (e, name) => do
-          modifyFrame e fun f =>
-              { store := setStore f.store name v, outer := f.outer, depth := f.depth, cacheKey := f.cacheKey,
-                function := f.function, getMiss := f.getMiss, cantCache := f.cantCache,
-                numSet := if (f.depth == 0) = true then f.numSet + 1 else f.numSet }
-          pure v) st OkO := by
+      Post (envStoreAt e (updTarget e name found).1 (updTarget e name found).2 v) st OkO := by
     intro v hv hnr
-    have this : (match found with | Obj.ref re rn => (re, rn) | _ => (e, name)).1 < st.frames.size := by
+    have ht : (updTarget e name found).1 < st.frames.size := by
       cases found <;> first | exact he | (simp only [okObj, decide_eq_true_eq] at hfound; exact hfound)
-    generalize (match found with | Obj.ref re rn => (re, rn) | _ => (e, name)) = p at this
-    obtain ⟨e', name'⟩ := p
-    have he' : e' < st.frames.size := this
-    dsimp only
-    refine Post.bind (Q := fun _ _ => True) ?_ ?_
-    · refine post_store (name := name') hI he' hv hnr ?_
-      intro f; exact ⟨rfl, rfl, rfl, rfl⟩
-    · intro _ s' hIs' hle _
-      exact Post.pure hIs' (okObj_mono hle _ hv)
+    exact post_envStoreAt hI he ht _ hv hnr
   split
   · refine Post.bind (post_valueOf hI hval) ?_
     rintro v s hIs _ ⟨rfl, hv, hnr⟩
@@ -612,11 +627,15 @@ theorem post_setNoChecks {st : St} (hI : Inv st) {e : Nat} (he : e < st.frames.s
       have hre : re < s.frames.size := by simpa [okObj] using hr _ rfl
       refine Post.bind (post_valueOf hIs hval') ?_
       rintro v s' hIs' _ ⟨rfl, hv, hnr⟩
+      obtain ⟨fre, hfre⟩ := frame_exists hre
+      refine Post.bind_read (runM_getFrame hfre) ?_
+      refine Post.bind (post_functionChanged hIs (by omega) _) ?_
+      rintro _ s1 hIs1 hle1 ⟨hsz1, _⟩
       refine Post.bind (Q := fun _ _ => True) ?_ ?_
-      · refine post_store (name := rn) hIs hre hv hnr ?_
+      · refine post_store (name := rn) hIs1 (by omega) (okObj_mono hle1 _ hv) hnr ?_
         intro f; exact ⟨rfl, rfl, rfl, rfl⟩
       · intro _ s'' hIs'' hle' _
-        exact Post.pure hIs'' (okObj_mono hle' _ hval')
+        exact Post.pure hIs'' (okObj_mono (Nat.le_trans hle1 hle') _ hval')
     · exact post_envCreate hIs (by omega) name hval'
 
 theorem post_createOrSet {st : St} (hI : Inv st) {e : Nat} (he : e < st.frames.size) (name : String) {val : Obj}
@@ -699,12 +718,14 @@ theorem post_envDelete_go (name : String) :
       subst hf2; split <;> exact ⟨rfl, rfl, rfl, rfl⟩
     obtain ⟨h2d, h2o, h2f, h2s⟩ := h2
     split
-    · refine Post.bind (Q := fun _ _ => True) ?_ ?_
-      · refine (post_setFrame hI hf (by exact h2d) (by exact h2o) (by exact h2f) ?_).mono (fun _ _ _ _ _ => trivial)
+    · refine Post.bind (Q := fun _ s => s.frames.size = st.frames.size) ?_ ?_
+      · refine (post_setFrame hI hf (by exact h2d) (by exact h2o) (by exact h2f) ?_)
         show StoreOk st.frames e f.depth (delStore f2.store name)
         rw [h2s]; exact hfok.store.delStore name
-      · intro _ s hIs _ _
-        exact Post.pure hIs (by simp [OkO, okObj])
+      · intro _ s hIs _ hsz
+        refine Post.bind (post_functionChanged hIs (by omega) _) ?_
+        intro _ s' hIs' _ _
+        exact Post.pure hIs' (by simp [OkO, okObj])
     · refine Post.bind (post_setFrame hI hf h2d h2o h2f (by rw [h2s]; exact hfok.store)) ?_
       intro _ s hIs _ hsz
       split
